@@ -172,6 +172,13 @@ Definition embed_layout (pre : Z) (p : pool) : Z * Z :=
   let lab := if palign p <=? 1 then pre else pre + align_up_diff pre (palign p) in
   (lab, lab + psize p).
 
+(* ---- the logging branch of BaseAssembler::embed_const_pool: data_size_log2 = min(ctz(min_item_size()), 3); the image is logged
+        as size() >> data_size_log2 items of 1 << data_size_log2 bytes. (item width, item count); nothing is logged for an
+        empty pool *)
+Definition log_layout (p : pool) : Z * Z :=
+  if psize p =? 0 then (0, 0) else
+  let w := pow2 (Nat.min (ctz (pmin p)) 3) in (w, psize p / w).
+
 (* ---- BaseCompiler::_new_const: pool->add(data, size, Out(off)), then the operand BaseMem(..., from_size(uint32_t(size)),
         pool->label_id(), 0, int32_t(off)): (offset field, size field) of the memory operand; None when add refuses (the operand
         stays reset) *)
@@ -194,13 +201,14 @@ Record params := mkParams {
   par_loop_breaks : bool;                (* the gap loop leaves after the first gap it finds *)
   par_fill_clears_all : bool;            (* fill() starts with memset(dst, 0, _size) *)
   par_fill_skips_shared : bool;          (* fill() copies only nodes with !_shared *)
-  par_new_const_disp_bits : Z            (* BaseCompiler::_new_const casts the offset to intN_t for the operand *)
+  par_new_const_disp_bits : Z;           (* BaseCompiler::_new_const casts the offset to intN_t for the operand *)
+  par_log_max_log2 : nat                 (* embed_const_pool logs items of min(ctz(min_item_size()), N) .. bytes *)
 }.
 
 Definition model_params : params :=
   mkParams 7 [(1, 0%nat); (2, 1%nat); (4, 2%nat); (8, 3%nat); (16, 4%nat); (32, 5%nat); (64, 6%nat)]
     [(32, 32, 5%nat, 32); (16, 16, 4%nat, 16); (8, 8, 3%nat, 8); (4, 4, 2%nat, 4); (2, 2, 1%nat, 2)] (0%nat, 1)
-    4 32 true false true true 32.
+    4 32 true false true true 32 3.
 
 (* the if-chain of ConstPool_addGap driven by data *)
 Fixpoint gap_class_of (chain : list (Z * Z * nat * Z)) (els : nat * Z) (off sz : Z) : nat * Z :=
